@@ -455,5 +455,81 @@ class PinBelongsToFile(Stream):
         return fails
 
 
+class FindLinksTwins(Stream):
+    """"the URL and hash later printed for a pin are those of the very file whose metadata was used", for find-links
+    directories: several directories hold a file of the same name with other content (an older build, a truncated copy);
+    each is resolved in turn through a repository of its own"""
+    name = "find-links-twins"
+    quick_n = 80
+    thorough_n = 4000
+    batch = 20
+
+    def setup(self):
+        import tempfile
+        self.tmp = tempfile.mkdtemp(prefix="rvc14t")
+
+    def teardown(self):
+        import shutil
+        shutil.rmtree(getattr(self, "tmp", ""), ignore_errors=True)
+
+    def generate(self, rng):
+        n = rng.randint(2, 3)
+        return {"dirs": [{"dep": "dep-" + str(i), "truncated": rng.random() < 0.25} for i in range(n)], "order": rng.sample(range(n), n)}
+
+    def impl(self, case):
+        import hashlib
+        import os
+        import shutil
+        from rv import backends as B
+        from rv.core import digest
+        from req_compile.repos.findlinks import FindLinksRepository
+        from req_compile.utils import parse_requirement
+        d = os.path.join(self.tmp, digest(case))
+        fn = B.wheel_name("foo", "1.0")
+        files = []
+        for i, spec in enumerate(case["dirs"]):
+            data = B.wheel_bytes("foo", "1.0", requires=[spec["dep"]], body="# build " + str(i) + "\n")
+            if spec["truncated"]:
+                data = data[: len(data) // 2]
+            os.makedirs(os.path.join(d, "links" + str(i)), exist_ok=True)
+            with open(os.path.join(d, "links" + str(i), fn), "wb") as f:
+                f.write(data)
+            files.append(hashlib.sha256(data).hexdigest())
+        out = []
+        for i in case["order"]:
+            repo = FindLinksRepository(os.path.join(d, "links" + str(i)))
+            try:
+                cands = list(repo.get_candidates(parse_requirement("foo")))
+                dist, _ = repo.resolve_candidate(cands[0])
+                out.append({"dir": i, "hash": dist.hash, "reqs": sorted(str(q) for q in dist.reqs)})
+            except Exception as ex:
+                out.append({"dir": i, "error": type(ex).__name__})
+        shutil.rmtree(d, ignore_errors=True)
+        return {"resolved": out, "file_sha256": files}
+
+    def flags(self, case, r):
+        return ["directories:" + str(len(case["dirs"]))] + (["a-truncated-copy"] if any(x["truncated"] for x in case["dirs"]) else [])
+
+    def oracle(self, case, r):
+        for got in r["resolved"]:
+            spec = case["dirs"][got["dir"]]
+            if spec["truncated"]:
+                if "error" not in got:
+                    return [("C14/truncated-find-links-file-read-as-a-distribution", got)]
+                continue
+            if "error" in got:
+                return [("C14/find-links-file-not-readable", got)]
+            if got["hash"] != "sha256:" + r["file_sha256"][got["dir"]]:
+                return [("C14/hash-is-not-the-resolved-files", {"resolved": got, "file": r["file_sha256"][got["dir"]]})]
+            if got["reqs"] != [spec["dep"]]:
+                return [("C14/metadata-read-from-another-file-than-the-link", {"resolved": got, "declared": spec["dep"]})]
+        return []
+
+    def shrink(self, case):
+        for i in range(len(case["order"])):
+            if len(case["order"]) > 1:
+                yield dict(case, order=case["order"][:i] + case["order"][i + 1:])
+
+
 def streams():
-    return [RequiresPythonStream(), NameStream(), PageStream(), PinBelongsToFile()]
+    return [RequiresPythonStream(), NameStream(), PageStream(), PinBelongsToFile(), FindLinksTwins()]
